@@ -240,6 +240,19 @@ func init() {
 			e.modelsUsed["math.Trunc = computed concretely (same machine function as the native build)"] = true
 			return e.ts.FP(math.Trunc(math.Float64frombits(a)))
 		},
+		// BLS12-381 point decoding: only the length check is modelled (a compressed G2 point has 96
+		// bytes); decoding a 96-byte string enters the field arithmetic and stays unsupported.
+		"github.com/kilic/bls12-381.NewG2": func(e *Engine, st *State, args []Value) Value {
+			e.modelsUsed["bls12-381: NewG2 = opaque handle; FromCompressed rejects inputs that are not 96 bytes long (other inputs unsupported)"] = true
+			return PtrV{}
+		},
+		"(*github.com/kilic/bls12-381.G2).FromCompressed": func(e *Engine, st *State, args []Value) Value {
+			in := args[1].(SliceV)
+			if len(e.sliceElems(st, in)) != 96 {
+				return TupleV{[]Value{PtrV{}, e.opaqueErr(e.ts.True)}}
+			}
+			panic(unsupported("bls12-381 point decompression of a 96-byte string"))
+		},
 		"time.AfterFunc": func(e *Engine, st *State, args []Value) Value {
 			e.modelsUsed["time.AfterFunc = timer that never fires inside a step"] = true
 			return PtrV{}
